@@ -85,6 +85,13 @@ def make_scenarios(rng, tier):
         for t in ('rule "pz" "vz" begin x = 1 # end', 'rule "pz" begin return 1 end $', 'rule "pa" begin return 1'):
             scs.append(scenario(sid, 2, 3, [{"op": k, "text": t}, g.op("incr")], g))
             sid += 1
+    # ... and texts in which COMPLETE rules (redefinitions of installed rules, new rules) precede the rule that does not compile: the
+    # text is rejected as a whole, and nothing of it turns up later — not after the next successful incremental or full update either
+    for k in ("update", "incr"):
+        for names in (["pa"], ["pb", "pq"]):
+            for nxt in ("incr", "update", "remove"):
+                scs.append(scenario(sid, 2, 3, [{"op": k, "rules": g.rules(names), "bad_tail": True}, g.op(nxt), g.op("incr")], g))
+                sid += 1
     # the execution model in use: rule sets in which the always-failing rule pd is the top, a middle or the lowest rule, under
     # each of the four models (set after, and before, the update)
     def fixed_rules(order):
@@ -128,7 +135,7 @@ def make_scenarios(rng, tier):
 
 
 def coq_mop(o):
-    if "text" in o:
+    if "text" in o or o.get("bad_tail"):
         return "MBadText %s" % coq_bool(o["op"] == "incr")
     k = o["op"]
     if k == "update":
@@ -195,7 +202,7 @@ MG_CODES = {28: "the name->position index of the master or of an instance's rule
 def main(run):
     build_harness()
     regen_pool()
-    ok, log = proof_obligations(run, PID, extra_obligations=2, extra_names=["T3: pool updates shape obligation (obligations/GenPoolOk.v)", "correspondence_C16: Pool/Check.v check_mg = []"])
+    ok, log = proof_obligations(run, PID, extra_obligations=3, extra_names=["T3: pool updates shape obligation (obligations/GenPoolOk.v)", "T2: waiting discipline — no mutex leaked at a return, one lock order, waiters hold nothing (obligations/GenWaitOk.v): a management call or query cannot put the pool out of service", "correspondence_C16: Pool/Check.v check_mg = []"])
     rng = random.Random(run.seed)
     scs = make_scenarios(rng, run.tier)
     run.log("running %d management histories (%d operations)" % (len(scs), sum(len(s["ops"]) for s in scs)))
@@ -225,10 +232,13 @@ def main(run):
                    {"pool": [s["min"], s["max"]], "history": hist, "scenario": strip({k: v for k, v in s.items() if k != "ops"}), "disagreement": MG_CODES[code]},
                    "C16: after %s on a (%d,%d) pool: %s" % (" ; ".join(("bad-" if "text" in o else "") + o["op"] for o in hist), s["min"], s["max"], MG_CODES[code]))
     bad_shape = shape_report(run, PID, 'updates', bool(run.violations)) if ok else []
+    bad_wait = wait_report(run, PID, bool(run.violations)) if ok else True
     if not ok and not run.violations:
         run.report({"kind": "proof", "theorem": PID}, {"theorem": "Props/C16.v", "log": log[-3000:]}, "C16: the Coq development no longer builds and no failing history was found", no_input=True)
     cov = run.coverage
     if ok and not bad_shape:
+        cov["discharged"] += 1
+    if ok and not bad_wait:
         cov["discharged"] += 1
     if not mm:
         cov["discharged"] += 1
